@@ -54,6 +54,7 @@ type Executor struct {
 	cloInfo   map[string]*FnVal
 	writtenMemo map[*ssa.Function]map[string]bool
 	safety  bool
+	callBinds  []Val // captured-variable bindings of the closure being called modularly
 	anchorLost bool // a contract refers to a source name the function no longer has
 }
 
@@ -688,6 +689,15 @@ func (ex *Executor) subRef(st *State, owner types.Type, fname string, base *Term
 		k := "subinv:" + t.Key()
 		if !st.seenFact(k) {
 			st.assume(Eq(App("un"+subFnName(owner, fname), SInt, t), base))
+			// a part of an object allocated here is as new as the object: it lies between the previous
+			// watermark and the object itself, hence differs from every older and every later reference
+			root := base
+			for root.Op == "app" && strings.HasPrefix(root.Name, "sub.") && len(root.Args) == 1 {
+				root = root.Args[0]
+			}
+			if prev, ok := refPrev[root.Key()]; ok {
+				st.assume(And(Gt(t, prev), Le(t, root)))
+			}
 		}
 	}
 	return t
